@@ -3,6 +3,9 @@ import SkgVerif.Lemmas.Classes
 import SkgVerif.Lemmas.Pairs
 import SkgVerif.Lemmas.CondIdx
 import SkgVerif.Model.Estimators
+import SkgVerif.Model.Pipeline
+import SkgVerif.Lemmas.Edges
+import SkgVerif.Lemmas.Quantile
 import SkgVerif.Gen.EstimatorsExec
 import SkgVerif.Gen.Tables
 import SkgVerif.Lemmas.CressieReal
@@ -191,6 +194,41 @@ theorem C01_genton_doc_partial (xs : List Rat) (heven : xs.length % 2 = 0) :
 theorem C01_genton_doc_counterexample : genton [0, 1, 3] ≠ gentonDoc [0, 1, 3] := by
   decide +kernel
 
+
+/-- the whole pipeline (`variogramE2E`: maxlag resolution, clipping, `even` edges, grouping,
+counting, estimator per class) for any data set with a positive effective maximum lag: `nl`
+classes; class `k` collects exactly the pairs with `edge[k-1] ≤ d < edge[k]`, its count is their
+number, its semivariance the estimator over their `|v_i − v_j|`, each difference belonging to the
+same point pair as its distance (`C01_alignment`) -/
+theorem C01_pipeline_even (est : List Rat → Option Rat) (nl : ℕ) (hnl : 0 < nl) (req : MaxlagReq)
+    (ds v : List Rat) (hpos : ∀ d ∈ ds, 0 ≤ d)
+    (hm : 0 < effMax (resolveMaxlag req ds) ds) :
+    let r := variogramE2E est .even nl req ds v
+    r.edges.length = nl ∧ r.counts.length = nl ∧ r.exp.length = nl ∧
+    r.edges.getLast? = some (effMax (resolveMaxlag req ds) ds) ∧
+    ∀ k (hk : k < nl),
+      r.counts[k]? = some (ds.filter (fun d => inClass r.edges k d)).length ∧
+      r.exp[k]? = some (est (((ds.zip (pairDiffs v)).filter
+          (fun p => inClass r.edges k p.1)).map (·.2))) := by
+  intro r
+  obtain ⟨hlen, _, hsorted, _, hlast, _⟩ := evenEdges_spec nl _ hnl hm
+  have hel : r.edges.length = nl := hlen
+  have hcl : r.counts.length = nl := by
+    show (binCount r.edges.length r.groups).length = nl
+    simp [binCount, hel]
+  have hxl : r.exp.length = nl := by
+    show (experimental est r.edges.length r.groups (pairDiffs v)).length = nl
+    simp [experimental, lagClasses, hel]
+  refine ⟨hel, hcl, hxl, hlast, ?_⟩
+  intro k hk
+  have hk' : k < r.edges.length := by rw [hel]; exact hk
+  constructor
+  · have := C01_count r.edges hsorted ds hpos k hk'
+    rw [List.getElem?_eq_getElem (by rw [hcl]; exact hk)]
+    exact congrArg some this
+  · have := C01_experimental est r.edges hsorted ds (pairDiffs v) hpos k hk'
+    rw [List.getElem?_eq_getElem (by rw [hxl]; exact hk)]
+    exact congrArg some this
 
 /-- the lag-class loop in the source (`Variogram._calc_groups`) uses the half-open intervals the
 model `groupAux` transcribes: `d >= lo & d < hi` over `zip([0] + edges, edges)`, start value −1 -/
